@@ -16,7 +16,7 @@
 //!   T <tid>                  spawn worker thread <tid>   (thread 0 is the main thread)
 //!   E <seq> <tid> <id>       expand input <id> on thread <tid>; prints an R line
 //!   P <tid> <n> <seed>       heap perturbation on thread <tid>: n seeded allocations, some kept
-//!   O <tid> <policy> <seed>  (hooked build) order policy + container seed for later expansions on <tid>
+//!   O <tid> <policy> <seed> [<file>:<line>]  (hooked build) order policy + container seed for later expansions on <tid>, optionally for one iteration site only
 //!   A                        (selftest) print the address of a stack variable and of a fresh heap block
 //! stdout:
 //!   R <seq> <tid> <id> <OK|ERR|PANIC|PARSE> <text> <spans>
@@ -207,7 +207,7 @@ fn guarded_expand(src: &str, shim: Shim) -> Rendering {
 enum Cmd {
     Expand { seq: u64, tid: u32, id: u32, src: std::sync::Arc<String> },
     Perturb { n: u32, seed: u64 },
-    Order { policy: u8, seed: u64 },
+    Order { policy: u8, seed: u64, site: Option<(String, u32)> },
     Quit,
 }
 
@@ -215,7 +215,7 @@ struct ThreadState {
     shim: Shim,
     held: Vec<Vec<u8>>,
     #[allow(dead_code)]
-    order: Option<(u8, u64)>,
+    order: Option<(u8, u64, Option<(String, u32)>)>,
 }
 
 fn xorshift(x: &mut u64) -> u64 {
@@ -235,8 +235,11 @@ fn run_cmd(st: &mut ThreadState, cmd: Cmd) -> Option<String> {
         Cmd::Expand { seq, tid, id, src } => {
             #[cfg(o2o_verif)]
             {
-                let (p, s) = st.order.unwrap_or((0, 0));
+                let (p, s, site) = st.order.clone().unwrap_or((0, 0, None));
                 o2o_impl::verif_seam::set_stream(s, o2o_impl::verif_seam::Policy::from_u8(p));
+                if let Some((f, l)) = site {
+                    o2o_impl::verif_seam::set_site_filter(&f, l);
+                }
             }
             let r = guarded_expand(&src, st.shim);
             #[allow(unused_mut)]
@@ -285,8 +288,8 @@ fn run_cmd(st: &mut ThreadState, cmd: Cmd) -> Option<String> {
             }
             Some(String::new())
         },
-        Cmd::Order { policy, seed } => {
-            st.order = Some((policy, seed));
+        Cmd::Order { policy, seed, site } => {
+            st.order = Some((policy, seed, site));
             Some(String::new())
         },
         Cmd::Quit => None,
@@ -389,7 +392,9 @@ fn main() {
                 let tid: u32 = f.next().unwrap().parse().unwrap();
                 let policy: u8 = f.next().unwrap().parse().unwrap();
                 let seed: u64 = f.next().unwrap().parse().unwrap();
-                dispatch(tid, Cmd::Order { policy, seed }, &threads, &mut out);
+                // optional: restrict the policy to one iteration site "<file>:<line>"
+                let site = f.next().and_then(|x| x.rsplit_once(':').and_then(|(a, b)| b.parse::<u32>().ok().map(|l| (a.to_string(), l))));
+                dispatch(tid, Cmd::Order { policy, seed, site }, &threads, &mut out);
             },
             Some("A") => {
                 // selftest only: where do a stack variable and a fresh heap block live?
